@@ -1,7 +1,9 @@
 //! An overlay file system combining two filesystems, an upper layer with read/write access and a lower layer with only read access
 
 use crate::error::VfsErrorKind;
-use crate::{FileSystem, SeekAndRead, SeekAndWrite, VfsMetadata, VfsPath, VfsResult};
+use crate::{
+    FileSystem, SeekAndRead, SeekAndWrite, VfsFileType, VfsMetadata, VfsPath, VfsResult,
+};
 use std::collections::HashSet;
 
 use std::time::SystemTime;
@@ -110,6 +112,12 @@ impl FileSystem for OverlayFS {
 
     fn create_dir(&self, path: &str) -> VfsResult<()> {
         self.ensure_has_parent(path)?;
+        if self.exists(path)? {
+            return match self.read_path(path)?.metadata()?.file_type {
+                VfsFileType::File => Err(VfsErrorKind::FileExists.into()),
+                VfsFileType::Directory => Err(VfsErrorKind::DirectoryExists.into()),
+            };
+        }
         self.write_path(path)?.create_dir()?;
         let whiteout_path = self.whiteout_path(path)?;
         if whiteout_path.exists()? {
